@@ -542,6 +542,8 @@ def run(env):
         # the analysed property of an already used type: these few histories first, whatever the time cap (seed S09b)
         if shape == "S4" and steps[1] == steps[3] and all(s.get("target") == "Rec" for s in (steps[0], steps[2])):
             return -1
+        if shape == "S4" and steps[1] == steps[3] and steps[0].get("op") == "cache_set_size" and steps[2].get("op") != "cache_set_size":
+            return -1  # caches re-created by set_size must still be invalidated by the next operation
         if shape == "S2" and steps[0] == steps[2]:
             return 0
         if shape == "S4" and P.op_group(steps[0]) == P.op_group(steps[2]) and steps[1] == steps[3]:
